@@ -120,6 +120,17 @@ func check(c Case) error {
 		for p := 0; p < c.Procs; p++ {
 			cmd := exec.Command(os.Args[0], "-test.run=^TestChildRender$")
 			cmd.Env = append(os.Environ(), "VERIF_C07_CHILD=1", "VERIF_OUT=")
+			// another machine: other working directory, CPU count, time zone, locale, home, Go settings
+			switch p % 4 {
+			case 1:
+				cmd.Dir = os.TempDir()
+				cmd.Env = append(cmd.Env, "GOMAXPROCS=1", "TZ=Pacific/Kiritimati", "LANG=tr_TR.UTF-8", "LC_ALL=tr_TR.UTF-8")
+			case 2:
+				cmd.Dir = "/"
+				cmd.Env = append(cmd.Env, "GOMAXPROCS=3", "HOME=/nonexistent", "GOROOT=/nonexistent/go", "GOPATH=/nonexistent/gopath", "GOFLAGS=", "TZ=UTC")
+			case 3:
+				cmd.Env = append(cmd.Env, "GOMAXPROCS=64", "GODEBUG=randautoseed=0", "USER=someoneelse", "TMPDIR=/var/tmp")
+			}
 			cmd.Stdin = bytes.NewReader(in)
 			out, err := cmd.Output()
 			if err != nil {
